@@ -101,7 +101,15 @@ def draw_plan(rng, profiles):
             site = rng.choice(sorted(by_site))
             L = rng.choice(sorted(by_site[site]))
             occ = rng.choice([1, 1, 1, 2])
-            if rng.random() < 0.6:
+            r_ = rng.random()
+            if r_ < 0.3 and len(by_site) > 1:
+                # two slow statements in different time-limited steps (e.g. one in sympy_simplify, one in check_results):
+                # "any subset of the time-limited steps" includes subsets that hit the same function in both
+                site2 = rng.choice(sorted(set(by_site) - {site}))
+                L2 = rng.choice(sorted(by_site[site2]))
+                plan[str(rk)] = {'*': ['lines', [[L, occ], [L2, 1]]]}
+                desc.append((site2, 'line', L2, 1))
+            elif r_ < 0.65:
                 plan[str(rk)] = {'*': ['line', L, occ]}
             else:
                 blocks = [e[0] for e in prof if L in e[5]]
@@ -189,7 +197,7 @@ def main(tier, seed, budget):
     src = source_lines()
     stats = dict(worlds=0, profile_worlds=0, faults_planned=0, faults_fired=0, armed_not_fired=0, by_gran={}, by_site={},
                  by_P={}, multi_fault_worlds=0, blocks_opened=0, covered=set(), worlds_nontrivial=set(), probes={k: 0 for k in PROBES}, timeouts_handled_msgs=0,
-                 events=0, ticks_total=0, blocks_total=0, classes_total=0, sound_functions=0, ref_failed=[], directed_known_finding_worlds=0, sweep=[], repeat_sweep=[], line_sweep=[])
+                 events=0, ticks_total=0, blocks_total=0, classes_total=0, sound_functions=0, ref_failed=[], directed_known_finding_worlds=0, sweep=[], repeat_sweep=[], line_sweep=[], line_pair_sweep=[])
     samples = []
     selftest = {}
     with Pool(16, hashseed=0) as pool:
@@ -271,6 +279,8 @@ def main(tier, seed, budget):
                     b, gran, t, func, where, site = f
                     stats['faults_fired'] += 1
                     stats['by_gran'][gran] = stats['by_gran'].get(gran, 0) + 1
+                    if any(e and e[0] == 'lines' for d in (a.get('plan') or {}).values() for e in d.values()):
+                        stats['by_gran']['lines2'] = stats['by_gran'].get('lines2', 0) + 1
                     sk = '%s:%s' % tuple(site) if site else 'none'
                     stats['by_site'][sk] = stats['by_site'].get(sk, 0) + 1
                     stats['covered'].add((a['runname'], a['compl'], a['P'], rki, b, gran, t))
@@ -378,6 +388,25 @@ def main(tier, seed, budget):
                 for job, out in pool.imap(lj, timeout=600):
                     handle(job, out, pending_min)
                 stats['line_sweep'].append(dict(config=list(sweep_key), source_lines=len(lines), plans_run=stats['worlds'] - n0, complete=True))
+            # ---- two slow statements: every line of the simplification steps x lines of the result check (the step that is
+            #      meant to catch what the interrupted simplification left behind is itself interrupted, for the same function)
+            if sweep_key in profiles:
+                pr = profiles[sweep_key][0]
+                chk = sorted({L for e in pr if e[4] and e[4][0] == 'check_results' for L in e[5]})
+                oth = sorted({L for e in pr if not (e[4] and e[4][0] == 'check_results') for L in e[5]})
+                if quick:
+                    chk = chk[:1]        # the first statement of the timed block of check_results: the check never starts
+                pj = []
+                for L2 in chk:
+                    for L in oth:
+                        a = base_args(cfg_by[sweep_key[:2]], 1, base.run_seed(seed, 300000 + L * 40 + len(pj) % 40))
+                        a['plan'] = {'0': {'*': ['lines', [[L, 1], [L2, 1]]]}}
+                        pj.append(dict(fn=JOB, args=a, timeout=600))
+                n0 = stats['worlds']
+                for job, out in pool.imap(pj, timeout=600):
+                    handle(job, out, pending_min)
+                stats['line_pair_sweep'].append(dict(config=list(sweep_key), simplification_lines=len(oth), check_results_lines=len(chk),
+                                                     plans_run=stats['worlds'] - n0, complete=not quick))
         def rare_line_sweep(key, base_key, variants):
             """Source lines reached inside timed blocks of `key` but never in the smallest configuration (e.g. the
             permutation search, which needs >= 2 parameters and a second round): fire before such a line in a random half of
@@ -469,12 +498,12 @@ def main(tier, seed, budget):
         fault_free_profile=dict(blocks=stats['blocks_total'], statement_ticks=stats['ticks_total'], path_classes=stats['classes_total']),
         faults_planned=stats['faults_planned'], faults_fired=stats['faults_fired'], armed_not_fired=stats['armed_not_fired'],
         fired_by_granularity=stats['by_gran'], fired_by_call_site=stats['by_site'], worlds_by_P=stats['by_P'],
-        multi_fault_worlds=stats['multi_fault_worlds'], directed_known_finding_worlds=stats['directed_known_finding_worlds'], probes=stats['probes'], single_fault_sweep=stats['sweep'], same_path_every_round_sweep=stats['repeat_sweep'], slow_statement_sweep=stats['line_sweep'],
+        multi_fault_worlds=stats['multi_fault_worlds'], directed_known_finding_worlds=stats['directed_known_finding_worlds'], probes=stats['probes'], single_fault_sweep=stats['sweep'], same_path_every_round_sweep=stats['repeat_sweep'], slow_statement_sweep=stats['line_sweep'], two_slow_statements_sweep=stats['line_pair_sweep'],
         seam_events=stats['events'], functions_checked_by_libsound=stats['sound_functions'],
         simulated_time=dict(seam_events=stats['events'], timed_blocks_opened=stats['blocks_opened'],
                             note='virtual time stands still inside a timed block unless the fault plan expires it; the measure of simulated time is the number of seam events and of timed blocks executed'),
         runs_per_hour=round(3600.0 * stats['worlds'] / max(wall, 1e-9)), selftest=selftest, components=base.COMPONENTS,
-        fault_kinds={'F3 timer expiry (statement)': stats['by_gran'].get('stmt', 0), 'F3 timer expiry (inside sympy call)': stats['by_gran'].get('deep', 0), 'F3 timer expiry (same source line every time)': stats['by_gran'].get('line', 0),
+        fault_kinds={'F3 timer expiry (statement)': stats['by_gran'].get('stmt', 0), 'F3 timer expiry (inside sympy call)': stats['by_gran'].get('deep', 0), 'F3 timer expiry (same source line every time)': stats['by_gran'].get('line', 0), 'F3 timer expiry (in worlds with two slow statements in different steps)': stats['by_gran'].get('lines2', 0),
                      'F5 rank count P>=2 worlds': sum(v for k, v in stats['by_P'].items() if k > 1)},
         known_findings_reproduced={k: v['count'] for k, v in rep.known_hits.items()},
         harness_errors=len(rep.harness), repo_head=base.repo_head(), exhaustive=False)
